@@ -19,6 +19,8 @@ inductive Json where
   | bool (b : Bool)
   | num (n : Int)
   | str (s : Name)
+  /-- a float literal: the bit pattern it parses to and the text it is written as -/
+  | fnum (bits : Nat) (text : Name)
   | arr (l : List Json)
   | obj (kv : List (String × Json))
   deriving Inhabited, Repr
@@ -43,6 +45,7 @@ partial def Json.render : Json → String
   | .bool b => if b then "true" else "false"
   | .num n => toString n
   | .str s => "\"" ++ jsonEscape s ++ "\""
+  | .fnum _ t => String.ofList t
   | .arr l => "[" ++ ",".intercalate (l.map Json.render) ++ "]"
   | .obj kv =>
     let sorted := kv.mergeSort fun a b => a.1 ≤ b.1
@@ -83,15 +86,15 @@ def encAttrs : List (Name × ATy) → List Json
   | (n, t) :: rest => .obj [("attr_name", encIdent n), ("attr_type", encATy t)] :: encAttrs rest
 end
 
-/-- floats are outside the compared stream; they are encoded as their bit pattern -/
+/-- floats are outside the compared stream (the text layer of floats is serde_json's) -/
 def encPrimVal : PrimVal → Json
   | .u8 n => tag1 "U8" (.num n) | .u16 n => tag1 "U16" (.num n) | .u32 n => tag1 "U32" (.num n)
   | .u64 n => tag1 "U64" (.num n)
   | .i8 n => tag1 "I8" (.num n) | .i16 n => tag1 "I16" (.num n) | .i32 n => tag1 "I32" (.num n)
   | .i64 n => tag1 "I64" (.num n)
-  | .f32 b _ => tag1 "F32" (.num b) | .f64 b _ => tag1 "F64" (.num b)
+  | .f32 b t => tag1 "F32" (.fnum b t) | .f64 b t => tag1 "F64" (.fnum b t)
   | .bool b => tag1 "Bool" (.bool b)
-  | .char c => tag1 "Char" (.str [Char.ofNat c])
+  | .char c => tag1 "Char" (.str [c])
   | .ptr => tag0 "Ptr"
   | .none => tag0 "None"
 
